@@ -263,7 +263,8 @@ def declare(spec):
             "implies(is_none(status), (pid in K_child) == (pid in old(K_child)))",
             "forall(INT, lambda p: implies(p in K_child, p in old(K_child)))",
             "wf_procs_pid(self)",
-        ], fingerprint='while:status is None')},
+        ], fingerprint='while:status is None',
+            modifies=['K_alive', 'K_child', 'clock', 'siglog', 'evlog', 'hooklog', 'reaplog', 'Process.closed'])},
     ))
 
     for nm, val in (('is_stopped', 'stopped'), ('is_stopping', 'stopping'), ('is_active', 'active')):
@@ -338,20 +339,23 @@ def declare(spec):
         requires=['excl', 'wf_w(self)', 'self.graceful_timeout >= 0'],
         ensures=[
             "self._status == 'stopped'",
-            "implies(old(self._status) == 'stopped', same_heap())",
+            ('stopped-noop', "implies(old(self._status) == 'stopped', same_heap())"),
+            "implies(old(self._status) == 'stopped', self.processes == old(self.processes) and "
+            "len(self.processes) == len(old(self.processes)))",
             # every worker the watcher listed is unlisted and has been reaped (no survivor, no zombie)
             "implies(old(self._status) != 'stopped', len(self.processes) == 0)",
             "implies(old(self._status) != 'stopped', forall(INT, lambda k: implies(k in old(self.processes), "
             "not (k in K_child))))",
             'wf_procs_pid(self)', 'excl', 'wf_w(self)',
-            "forall(Ref('Watcher'), lambda w: implies(w != self, w._status == old(w._status) and "
-            "w.numprocesses == old(w.numprocesses) and w.processes == old(w.processes)))",
+            ('others-untouched', "forall(Ref('Watcher'), lambda w: implies(w != self, w._status == old(w._status) and "
+             "w.numprocesses == old(w.numprocesses) and w.processes == old(w.processes)))"),
             # nothing but this watcher's table and status changes among the protected state; nothing is spawned
             prot(exc=('Watcher.processes', 'Watcher._status', 'Watcher.stream_redirector', 'reaplog')),
             spec.consts['$LOGS'],
             'clock >= old(clock)',
             'implies(old(found_empty(self)), found_empty(self))',
         ],
+        seq_only=('stopped-noop', 'others-untouched'),
         modifies=['*']))
 
     # ---- spawning (C01, C04, C09, C13 wid invariant, C14 gates) ----------------------------------
